@@ -306,6 +306,19 @@ def gen_status_reports():
                             status=st, reason=reason, subj_src=subj, subj_ts=(700000000000, 9), frag=frag))
 
 
+    # reason codes the repository has no name for (11 is in RFC 9171; the others are unassigned): the record is
+    # carried as it came, octet for octet
+    for reason in (11, 17, 23, 24, 255, 256, 65535):
+        for asserted in ((True, False, False, False), (False, False, False, True), (True, True, True, True)):
+            for when in (None, 23):
+                for frag in (None, (0, 24)):
+                    st = [(a, when if a else None) for a in asserted]
+                    b = base_bundle(2)
+                    b['primary']['flags'] = B.FLAG_ADMIN
+                    b['blocks'][-1]['data'] = B.enc_status_report(st, reason, 'dtn://src/', (700000000000, 9), frag=frag)
+                    yield ('report %r when=%r unregistered reason=%d frag=%r' % (asserted, when, reason, frag), b)
+
+
 def _copy(bundle):
     return dict(primary=dict(bundle['primary']), blocks=[dict(b) for b in bundle['blocks']])
 
